@@ -28,6 +28,13 @@ inductive FVal
   /-- object→array mixed container `{ first fields… m0 items… }` -/
   | mixed (g g0 : Bytes) (first : FFirst) (rest : FFields) (gm : Bytes) (m0 : Scal) (items : FItems)
       (gc : Bytes)
+  /-- an array that turns mixed, first element a scalar: `{ s0 pre… m0 op items… }` — the scalar `m0`
+  is followed by an operator (`{ 10 0=2 1=2 }`): `MixedContainer` goes in front of `m0` -/
+  | arrSM (g g0 : Bytes) (s0 : Scal) (pre : FVals) (gm : Bytes) (m0 : Scal) (go : Bytes) (o : Op)
+      (items : FItems) (gc : Bytes)
+  /-- the same with a non-empty container as first element -/
+  | arrCM (g : Bytes) (first : FVal) (pre : FVals) (gm : Bytes) (m0 : Scal) (go : Bytes) (o : Op)
+      (items : FItems) (gc : Bytes)
 /-- the first field of a nested object (the one ParseOpen sees) -/
 inductive FFirst
   | kv (key : Scal) (g1 : Bytes) (op : Op) (v : FVal)
@@ -71,6 +78,12 @@ def frenderV : FVal → Bytes
   | .mixed g g0 first rest gm m0 items gc =>
     g ++ 123 :: (g0 ++ (frenderFirst first ++ (frenderF rest ++
       (gm ++ (m0.text ++ (frenderI items ++ (gc ++ [125])))))))
+  | .arrSM g g0 s0 pre gm m0 go o items gc =>
+    g ++ 123 :: (g0 ++ (s0.text ++ (frenderVs pre ++
+      (gm ++ (m0.text ++ (go ++ (o.text ++ (frenderI items ++ (gc ++ [125])))))))))
+  | .arrCM g first pre gm m0 go o items gc =>
+    g ++ 123 :: (frenderV first ++ (frenderVs pre ++
+      (gm ++ (m0.text ++ (go ++ (o.text ++ (frenderI items ++ (gc ++ [125]))))))))
 /-- what stands behind the opening `{` of a braced value. -/
 def finner : FVal → Bytes
   | .scal _ _ => []
@@ -81,6 +94,12 @@ def finner : FVal → Bytes
   | .ghostIn _ b1 b2 v => b1 ++ 123 :: (b2 ++ 125 :: finner v)
   | .mixed _ g0 first rest gm m0 items gc =>
     g0 ++ (frenderFirst first ++ (frenderF rest ++ (gm ++ (m0.text ++ (frenderI items ++ (gc ++ [125]))))))
+  | .arrSM _ g0 s0 pre gm m0 go o items gc =>
+    g0 ++ (s0.text ++ (frenderVs pre ++
+      (gm ++ (m0.text ++ (go ++ (o.text ++ (frenderI items ++ (gc ++ [125]))))))))
+  | .arrCM _ first pre gm m0 go o items gc =>
+    frenderV first ++ (frenderVs pre ++
+      (gm ++ (m0.text ++ (go ++ (o.text ++ (frenderI items ++ (gc ++ [125])))))))
 def frenderFirst : FFirst → Bytes
   | .kv k g1 o v => k.text ++ (g1 ++ (o.text ++ frenderV v))
   | .flds f => frenderF f
@@ -113,11 +132,12 @@ def FVal.isBraced : FVal → Prop
   | _ => True
 
 def FVal.isContainer : FVal → Prop
-  | .obj .. | .arrS .. | .arrC .. | .ghostIn .. | .mixed .. => True
+  | .obj .. | .arrS .. | .arrC .. | .ghostIn .. | .mixed .. | .arrSM .. | .arrCM .. => True
   | _ => False
 
 def FVal.gap : FVal → Bytes
-  | .scal g _ | .empty g _ | .obj g .. | .arrS g .. | .arrC g .. | .ghostIn g .. | .mixed g .. => g
+  | .scal g _ | .empty g _ | .obj g .. | .arrS g .. | .arrC g .. | .ghostIn g .. | .mixed g ..
+  | .arrSM g .. | .arrCM g .. => g
 
 /-- a field list that starts with a header field or a parameter block -/
 def FFields.startsSpecial : FFields → Prop
@@ -140,6 +160,7 @@ container, one that starts with `{` or with a ghost `{}` makes the parser fall b
 def FVal.scalarLed : FVal → Prop
   | .obj _ _ first _ _ => first.scalarLed
   | .arrS .. => True
+  | .arrSM .. => True
   | .mixed _ _ first .. => first.scalarLed
   | _ => False
 
@@ -168,6 +189,21 @@ def FValidV : FVal → Bytes → Prop
     m0.ValidX ∧ (m0.quoted = false → StartsBoundary E) ∧
     (∀ d2, skipWs E = some d2 → lexOperator true d2 = none ∧ d2.head? ≠ some 123) ∧
     FValidI items (gc ++ 125 :: after)
+  | .arrSM g g0 s0 pre gm m0 go o items gc, after =>
+    let I := frenderI items ++ (gc ++ 125 :: after)
+    let M := gm ++ (m0.text ++ (go ++ (o.text ++ I)))
+    Blank g ∧ Blank g0 ∧ Blank gm ∧ Blank go ∧ Blank gc ∧ s0.ValidX ∧
+    (s0.quoted = false → StartsBoundary (frenderVs pre ++ M)) ∧
+    (∀ d2, skipWs (frenderVs pre ++ M) = some d2 → firstFieldPeek d2 = false) ∧
+    FValidVs pre M ∧ m0.ValidX ∧ (m0.quoted = false → StartsBoundary (go ++ (o.text ++ I))) ∧
+    o ≠ .exists_ ∧ (o.text.length = 1 → I.head? ≠ some 61) ∧ FValidI items (gc ++ 125 :: after)
+  | .arrCM g first pre gm m0 go o items gc, after =>
+    let I := frenderI items ++ (gc ++ 125 :: after)
+    let M := gm ++ (m0.text ++ (go ++ (o.text ++ I)))
+    Blank g ∧ Blank gm ∧ Blank go ∧ Blank gc ∧ first.isContainer ∧
+    FValidV first (frenderVs pre ++ M) ∧ FValidVs pre M ∧
+    m0.ValidX ∧ (m0.quoted = false → StartsBoundary (go ++ (o.text ++ I))) ∧
+    o ≠ .exists_ ∧ (o.text.length = 1 → I.head? ≠ some 61) ∧ FValidI items (gc ++ 125 :: after)
 def FValidFirst : FFirst → Bytes → Prop
   | .kv k g1 o v, after =>
     Blank g1 ∧ k.ValidX ∧ (k.quoted = false → StartsBoundary (g1 ++ o.text)) ∧ FValidV v after
@@ -223,6 +259,8 @@ def fcntV : FVal → Nat
   | .arrC _ first rest _ => 2 + fcntV first + fcntVs rest
   | .ghostIn _ _ _ v => fcntV v
   | .mixed _ _ first rest _ _ items _ => 2 + fcntFirst first + fcntF rest + 2 + fcntI items
+  | .arrSM _ _ _ pre _ _ _ _ items _ => 2 + 1 + fcntVs pre + 3 + fcntI items
+  | .arrCM _ first pre _ _ _ _ items _ => 2 + fcntV first + fcntVs pre + 3 + fcntI items
 def fcntFirst : FFirst → Nat
   | .kv _ _ o v => 1 + o.toks.length + fcntV v
   | .flds f => fcntF f
@@ -273,6 +311,22 @@ def ftapeV : FVal → Nat → Bytes → List Tok
         ftapeF rest (base + 1 + fcntFirst first) (gm ++ (m0.text ++ E)) ++
         [.mixedContainer, m0.tok E] ++
         ftapeI items (base + 1 + fcntFirst first + fcntF rest + 2) (gc ++ 125 :: after)) ++
+      [.endTok base]
+  | .arrSM _ _ s0 pre gm m0 go o items gc, base, after =>
+    let I := frenderI items ++ (gc ++ 125 :: after)
+    let M := gm ++ (m0.text ++ (go ++ (o.text ++ I)))
+    [.array (base + 1 + 1 + fcntVs pre + 3 + fcntI items) true] ++
+      ([s0.tok (frenderVs pre ++ M)] ++ ftapeVs pre (base + 1 + 1) M ++
+        [.mixedContainer, m0.tok (go ++ (o.text ++ I)), .operator o] ++
+        ftapeI items (base + 1 + 1 + fcntVs pre + 3) (gc ++ 125 :: after)) ++
+      [.endTok base]
+  | .arrCM _ first pre gm m0 go o items gc, base, after =>
+    let I := frenderI items ++ (gc ++ 125 :: after)
+    let M := gm ++ (m0.text ++ (go ++ (o.text ++ I)))
+    [.array (base + 1 + fcntV first + fcntVs pre + 3 + fcntI items) true] ++
+      (ftapeV first (base + 1) (frenderVs pre ++ M) ++ ftapeVs pre (base + 1 + fcntV first) M ++
+        [.mixedContainer, m0.tok (go ++ (o.text ++ I)), .operator o] ++
+        ftapeI items (base + 1 + fcntV first + fcntVs pre + 3) (gc ++ 125 :: after)) ++
       [.endTok base]
 /-- the tokens of the first field (`base` = index of its first token) -/
 def ftapeFirst : FFirst → Nat → Bytes → List Tok
@@ -337,6 +391,8 @@ def fstepsV : FVal → Nat
   | .arrC _ first rest _ => 2 + fstepsV first + fstepsVs rest + 1
   | .ghostIn _ _ _ v => 1 + fstepsV v
   | .mixed _ _ first rest _ _ items _ => 1 + fstepsFirst first + fstepsF rest + 2 + fstepsI items + 1
+  | .arrSM _ _ _ pre _ _ _ _ items _ => 2 + fstepsVs pre + 2 + fstepsI items + 1
+  | .arrCM _ first pre _ _ _ _ items _ => 2 + fstepsV first + fstepsVs pre + 2 + fstepsI items + 1
 /-- iterations of the first field, from ParseOpen to Key -/
 def fstepsFirst : FFirst → Nat
   | .kv _ _ _ v => 2 + fstepsV v
